@@ -297,6 +297,9 @@ fn gen_c03(ch: &mut Choices) -> Plan {
     plan.w_outcome = *ch.pick(&[[1u32, 0, 0], [8, 2, 0], [8, 0, 1], [6, 2, 1]]);
     plan.w_payload = *ch.pick(&[[1u32, 0, 0], [3, 2, 0], [3, 1, 1]]);
     plan.ending = if ch.chance(1, 5) { Ending::Stop } else { Ending::Settle };
+    // with and without the topic router in front of the publish handlers (every topic "t/<n>" of this family
+    // is routed to the resource t/{id}; client roles: ClientRouter)
+    plan.cfg.use_router = ch.chance(1, 3);
 
     // KNOWN FINDING (C03/wrong-ack-type/C?/q2-PUBACK): the client role answers an inbound QoS 2
     // PUBLISH with PUBACK. Half of the client-role runs avoid inbound QoS 2 so that the finding
@@ -465,6 +468,11 @@ fn gen_outbound(kind: OutKind, ch: &mut Choices) -> Plan {
             Role::C5 => plan.peer.connack_props.retain(|(id, _)| *id != 33),
             Role::C3 => plan.cfg.max_send = 16,
         }
+    }
+    if role.is_server() && matches!(kind, OutKind::C05 | OutKind::C13) && ch.chance(1, 5) {
+        // senders that start (and park) before the handshake is acknowledged, i.e. before the limit exists
+        plan.cfg.early_senders = true;
+        plan.cfg.hs_gated = ch.chance(1, 2);
     }
     let limit = send_limit(&plan) as usize;
     // senders
